@@ -16,13 +16,13 @@ PROPS = {
                         "durations above 3276 days are outside the period type's exact range and not generated",
                         "time-period checks allow 1.2 s (1 s stated + scheduling slack)"],
         "runs": [
-            {"name": "decimal", "run": "TestScaledDecimal", "kind": "rapid", "checks": {Q: 400000, T: 8000000}, "shards": {Q: 4, T: 16}, "env": {"VERIF_HASH_MOD": {Q: 1, T: 16}}},
-            {"name": "float", "run": "TestScaledFloat", "kind": "rapid", "checks": {Q: 200000, T: 6000000}, "shards": {Q: 2, T: 16}, "env": {"VERIF_HASH_MOD": {Q: 1, T: 16}}},
-            {"name": "duration", "run": "TestDuration", "kind": "rapid", "checks": {Q: 150000, T: 4000000}, "shards": {Q: 2, T: 16}, "env": {"VERIF_HASH_MOD": {Q: 1, T: 16}}},
-            {"name": "instant", "run": "TestInstant", "kind": "rapid", "checks": {Q: 20000, T: 2000000}, "shards": {Q: 2, T: 8}, "env": {"VERIF_HASH_MOD": {Q: 1, T: 16}}},
-            {"name": "timeperiod", "run": "TestTimePeriod", "kind": "rapid", "checks": {Q: 5000, T: 300000}, "shards": {Q: 2, T: 8}},
-            {"name": "sweepdec", "run": "TestSweepDecimals", "kind": "plain", "shards": {Q: 2, T: 16}, "env": {"VERIF_STRIDE": {Q: 37, T: 1}, "VERIF_HASH_MOD": {Q: 1, T: 16}}},
-            {"name": "sweepdur", "run": "TestSweepDurations", "kind": "plain", "shards": {Q: 2, T: 16}, "env": {"VERIF_STRIDE": {Q: 101, T: 1}, "VERIF_HASH_MOD": {Q: 1, T: 16}}},
+            {"name": "decimal", "run": "TestScaledDecimal", "kind": "rapid", "checks": {Q: 400000, T: 64000000}, "shards": {Q: 4, T: 16}, "env": {"VERIF_HASH_MOD": {Q: 1, T: 64}}},
+            {"name": "float", "run": "TestScaledFloat", "kind": "rapid", "checks": {Q: 200000, T: 48000000}, "shards": {Q: 2, T: 16}, "env": {"VERIF_HASH_MOD": {Q: 1, T: 64}}},
+            {"name": "duration", "run": "TestDuration", "kind": "rapid", "checks": {Q: 150000, T: 32000000}, "shards": {Q: 2, T: 16}, "env": {"VERIF_HASH_MOD": {Q: 1, T: 64}}},
+            {"name": "instant", "run": "TestInstant", "kind": "rapid", "checks": {Q: 20000, T: 16000000}, "shards": {Q: 2, T: 8}, "env": {"VERIF_HASH_MOD": {Q: 1, T: 64}}},
+            {"name": "timeperiod", "run": "TestTimePeriod", "kind": "rapid", "checks": {Q: 5000, T: 2400000}, "shards": {Q: 2, T: 8}},
+            {"name": "sweepdec", "run": "TestSweepDecimals", "kind": "plain", "shards": {Q: 2, T: 16}, "env": {"VERIF_STRIDE": {Q: 37, T: 1}, "VERIF_HASH_MOD": {Q: 1, T: 64}}},
+            {"name": "sweepdur", "run": "TestSweepDurations", "kind": "plain", "shards": {Q: 2, T: 16}, "env": {"VERIF_STRIDE": {Q: 101, T: 1}, "VERIF_HASH_MOD": {Q: 1, T: 64}}},
             {"name": "regression", "run": "TestRegression", "kind": "plain"},
         ],
     },
@@ -40,9 +40,9 @@ PROPS = {
                         "full-key scalar selectors matching at most one item, partial+selector carries exactly one identifier-less item",
                         "selector/elements fields are located by the XSD JSON naming convention, not by the eebus tags under test"],
         "runs": [
-            {"name": "fold", "run": "TestFold", "kind": "rapid", "checks": {Q: 20000, T: 480000}, "shards": {Q: 4, T: 16}},
+            {"name": "fold", "run": "TestFold", "kind": "rapid", "checks": {Q: 20000, T: 2400000}, "shards": {Q: 4, T: 16}},
             {"name": "sweep", "run": "TestSweep", "kind": "plain", "shards": {Q: 2, T: 16}, "args": {Q: ["-rapid.checks=3"], T: ["-rapid.checks=40"]}},
-            {"name": "model", "run": "TestModelUpdateList", "kind": "rapid", "checks": {Q: 8000, T: 320000}, "shards": {Q: 2, T: 16}, "env": {"VERIF_TIER": "thorough"}},
+            {"name": "model", "run": "TestModelUpdateList", "kind": "rapid", "checks": {Q: 8000, T: 1600000}, "shards": {Q: 2, T: 16}, "env": {"VERIF_TIER": "thorough"}},
         ],
     },
     "C18": {
@@ -62,8 +62,8 @@ PROPS = {
             {"name": "grid", "run": "TestCmdGrid", "kind": "plain", "shards": {Q: 4, T: 16}, "args": {Q: ["-rapid.checks=5"], T: ["-rapid.checks=300"]}},
             {"name": "factory", "run": "TestFactoryTables", "kind": "plain"},
             {"name": "tags", "run": "TestTagCoherence", "kind": "plain"},
-            {"name": "values", "run": "TestValueRoundTrip", "kind": "rapid", "checks": {Q: 40000, T: 800000}, "shards": {Q: 4, T: 16}},
-            {"name": "wire", "run": "TestWire", "kind": "rapid", "checks": {Q: 12000, T: 200000}, "shards": {Q: 4, T: 16}},
+            {"name": "values", "run": "TestValueRoundTrip", "kind": "rapid", "checks": {Q: 40000, T: 2400000}, "shards": {Q: 4, T: 16}},
+            {"name": "wire", "run": "TestWire", "kind": "rapid", "checks": {Q: 12000, T: 600000}, "shards": {Q: 4, T: 16}},
             {"name": "fuzz", "run": "FuzzCmdJSON", "kind": "fuzz", "tiers": [T], "fuzztime": "60s", "timeout": 600},
         ],
     },
@@ -81,7 +81,7 @@ PROPS = {
                         "the verdict of a combined delete+partial that re-creates an element is not fixed",
                         "P4 compares the addressed changeable elements with the reference fold, ignoring the flag field itself"],
         "runs": [
-            {"name": "protect", "run": "TestWriteProtection", "kind": "rapid", "checks": {Q: 24000, T: 320000}, "shards": {Q: 4, T: 16}},
+            {"name": "protect", "run": "TestWriteProtection", "kind": "rapid", "checks": {Q: 24000, T: 1920000}, "shards": {Q: 4, T: 16}},
             {"name": "sweep", "run": "TestSweep", "kind": "plain", "shards": {Q: 4, T: 16}, "env": {"VERIF_SWEEP_LEN": {Q: 3, T: 4}}},
         ],
     },
@@ -97,8 +97,8 @@ PROPS = {
         "assumptions": ["a snapshot 'changes' iff its canonical JSON changes (values contain no relative-only time periods)",
                         "'no data' (nil) and an empty value are not distinguished for the unchanged-store clause"],
         "runs": [
-            {"name": "snapshots", "run": "TestSnapshots", "kind": "rapid", "checks": {Q: 20000, T: 320000}, "shards": {Q: 4, T: 16}},
-            {"name": "usecase", "run": "TestUseCaseSnapshots", "kind": "rapid", "checks": {Q: 10000, T: 100000}, "shards": {Q: 2, T: 8}},
+            {"name": "snapshots", "run": "TestSnapshots", "kind": "rapid", "checks": {Q: 20000, T: 1920000}, "shards": {Q: 4, T: 16}},
+            {"name": "usecase", "run": "TestUseCaseSnapshots", "kind": "rapid", "checks": {Q: 10000, T: 600000}, "shards": {Q: 2, T: 8}},
         ],
     },
     "C08": {
@@ -115,7 +115,7 @@ PROPS = {
                         "Generic feature types and client addresses naming a foreign device are not generated (DESIGN §4 C08 NA)",
                         "whether a remote write is accepted is observed from its result, not predicted (C03/C04 own the gate)"],
         "runs": [
-            {"name": "subs", "run": "TestSubscriptions", "kind": "rapid", "checks": {Q: 8000, T: 80000}, "shards": {Q: 4, T: 16}, "steps": {Q: 20, T: 40}},
+            {"name": "subs", "run": "TestSubscriptions", "kind": "rapid", "checks": {Q: 8000, T: 400000}, "shards": {Q: 4, T: 16}, "steps": {Q: 20, T: 40}},
         ],
     },
     "C09": {
@@ -131,9 +131,9 @@ PROPS = {
         "assumptions": ["special role accepted on both sides; Generic types not generated",
                         "schedule enumeration is exhaustive only over the instrumented window (build tag verif); elsewhere stress"],
         "runs": [
-            {"name": "bindings", "run": "TestBindings", "kind": "rapid", "checks": {Q: 8000, T: 80000}, "shards": {Q: 4, T: 16}, "steps": {Q: 20, T: 40}},
+            {"name": "bindings", "run": "TestBindings", "kind": "rapid", "checks": {Q: 8000, T: 320000}, "shards": {Q: 4, T: 16}, "steps": {Q: 20, T: 40}},
             {"name": "interleavings", "run": "TestBindInterleavings", "kind": "plain"},
-            {"name": "stress", "run": "TestBindStress", "kind": "plain", "shards": {Q: 2, T: 16}, "env": {"VERIF_ROUNDS": {Q: 300, T: 3000}}},
+            {"name": "stress", "run": "TestBindStress", "kind": "plain", "shards": {Q: 2, T: 16}, "env": {"VERIF_ROUNDS": {Q: 300, T: 12000}}},
         ],
     },
     "C03": {
@@ -150,7 +150,7 @@ PROPS = {
         "assumptions": ["the registry's own correctness is C09/C10's subject: the gate is judged relative to HasLocalFeatureRemoteBinding (cross-checked with Bindings(peer))",
                         "no message is injected on a removed connection (cannot happen in SHIP); disappearance of the device is tested by reconnecting the same SKI"],
         "runs": [
-            {"name": "gate", "run": "TestWriteGate", "kind": "rapid", "checks": {Q: 8000, T: 80000}, "shards": {Q: 4, T: 16}, "steps": {Q: 20, T: 40}},
+            {"name": "gate", "run": "TestWriteGate", "kind": "rapid", "checks": {Q: 8000, T: 400000}, "shards": {Q: 4, T: 16}, "steps": {Q: 20, T: 40}},
         ],
     },
     "C10": {
@@ -166,7 +166,7 @@ PROPS = {
         "assumptions": ["real time is used only to let the 30 ms approval time-out expire (sleep 55 ms); no timing is asserted",
                         "no message is injected on a removed connection"],
         "runs": [
-            {"name": "teardown", "run": "TestTeardown", "kind": "rapid", "checks": {Q: 4000, T: 40000}, "shards": {Q: 8, T: 16}, "steps": {Q: 20, T: 40}},
+            {"name": "teardown", "run": "TestTeardown", "kind": "rapid", "checks": {Q: 4000, T: 240000}, "shards": {Q: 8, T: 16}, "steps": {Q: 20, T: 40}},
             {"name": "stress", "run": "TestTeardownStress", "kind": "plain", "shards": {Q: 4, T: 16}, "env": {"VERIF_ROUNDS": {Q: 150, T: 1500}}},
         ],
     },
@@ -182,7 +182,7 @@ PROPS = {
         "assumptions": ["callback identity is the code pointer: distinct function literals model distinct callbacks",
                         "replies and results always carry a msgCounterReference (without one PrintMessageOverview panics - C05's subject)"],
         "runs": [
-            {"name": "callbacks", "run": "TestCallbacks", "kind": "rapid", "checks": {Q: 6000, T: 40000}, "shards": {Q: 4, T: 16}, "steps": 30},
+            {"name": "callbacks", "run": "TestCallbacks", "kind": "rapid", "checks": {Q: 6000, T: 600000}, "shards": {Q: 4, T: 16}, "steps": 30},
             {"name": "sites", "run": "TestSites", "kind": "plain"},
             {"name": "scenario", "run": "TestScenario", "kind": "plain"},
         ],
@@ -197,8 +197,8 @@ PROPS = {
                  "must-deliver pair exists and an (un)subscription lies between two publications or re-entrancy was executed. Distinct by plan hash."),
         "assumptions": ["a Publish that does not return within 10 s with goroutines parked in spine-go locks is a deadlock; a bare time-out is inconclusive"],
         "runs": [
-            {"name": "bus", "run": "TestBusHistories", "kind": "rapid", "checks": {Q: 8000, T: 50000}, "shards": {Q: 4, T: 16}},
-            {"name": "corefirst", "run": "TestCoreFirst", "kind": "rapid", "checks": {Q: 4000, T: 30000}, "shards": {Q: 4, T: 16}},
+            {"name": "bus", "run": "TestBusHistories", "kind": "rapid", "checks": {Q: 8000, T: 1000000}, "shards": {Q: 4, T: 16}},
+            {"name": "corefirst", "run": "TestCoreFirst", "kind": "rapid", "checks": {Q: 4000, T: 600000}, "shards": {Q: 4, T: 16}},
             {"name": "oracle", "run": "TestOracle", "kind": "plain"},
             {"name": "coreconcurrent", "run": "TestCoreFirstConcurrent", "kind": "plain", "shards": {Q: 2, T: 8}, "env": {"VERIF_ROUNDS": {Q: 300, T: 3000}}},
         ],
@@ -216,8 +216,8 @@ PROPS = {
         "assumptions": ["operations on different entities commute, so the expected final registry of a concurrent workload is well defined",
                         "concurrent tests need GOMAXPROCS >= 2"],
         "runs": [
-            {"name": "registry", "run": "TestUseCaseRegistry", "kind": "rapid", "checks": {Q: 4000, T: 50000}, "shards": {Q: 4, T: 16}, "steps": {Q: 30, T: 40}},
-            {"name": "concurrent", "run": "TestUseCaseConcurrent", "kind": "rapid", "checks": {Q: 60, T: 600}, "shards": {Q: 1, T: 2}},
+            {"name": "registry", "run": "TestUseCaseRegistry", "kind": "rapid", "checks": {Q: 4000, T: 150000}, "shards": {Q: 4, T: 16}, "steps": {Q: 30, T: 40}},
+            {"name": "concurrent", "run": "TestUseCaseConcurrent", "kind": "rapid", "checks": {Q: 60, T: 1800}, "shards": {Q: 1, T: 2}},
             {"name": "pairs", "run": "TestUseCaseConcurrentPairs", "kind": "plain", "env": {"VERIF_C20_PAIR_ROUNDS": {Q: 40, T: 400}}},
             {"name": "interleavings", "run": "TestUseCaseInterleavings", "kind": "plain"},
         ],
@@ -235,8 +235,8 @@ PROPS = {
         "assumptions": ["real time: 25 ms approval time-out, event-driven waiting up to 1 s; slow-harness cases are discarded, never judged",
                         "pending writes are authorised when they arrive; the binding may change afterwards"],
         "runs": [
-            {"name": "matrix", "run": "TestApprovalMatrix", "kind": "rapid", "checks": {Q: 1600, T: 16000}, "shards": {Q: 8, T: 16}, "shrinktime": "15s"},
-            {"name": "staggered", "run": "TestStaggeredWrites", "kind": "rapid", "checks": {Q: 480, T: 12000}, "shards": {Q: 8, T: 16}, "shrinktime": "15s"},
+            {"name": "matrix", "run": "TestApprovalMatrix", "kind": "rapid", "checks": {Q: 1600, T: 80000}, "shards": {Q: 8, T: 16}, "shrinktime": "15s"},
+            {"name": "staggered", "run": "TestStaggeredWrites", "kind": "rapid", "checks": {Q: 480, T: 60000}, "shards": {Q: 8, T: 16}, "shrinktime": "15s"},
             {"name": "window", "run": "TestApprovalVsTimeout", "kind": "plain"},
         ],
     },
@@ -252,9 +252,9 @@ PROPS = {
         "assumptions": ["classifier, sender address and ack are not part of 'identical request' (same destination, same command)",
                         "'withheld' is never required (the statement is an only-if)"],
         "runs": [
-            {"name": "sequential", "run": "TestSenderSequential", "kind": "rapid", "checks": {Q: 2000, T: 50000}, "shards": {Q: 4, T: 16}},
-            {"name": "concurrent", "run": "TestSenderConcurrent", "kind": "rapid", "checks": {Q: 200, T: 5000}, "shards": {Q: 1, T: 4}},
-            {"name": "bounded", "run": "TestSenderBounded", "kind": "rapid", "checks": {Q: 40, T: 600}, "shards": {Q: 1, T: 4}},
+            {"name": "sequential", "run": "TestSenderSequential", "kind": "rapid", "checks": {Q: 2000, T: 75000}, "shards": {Q: 4, T: 16}},
+            {"name": "concurrent", "run": "TestSenderConcurrent", "kind": "rapid", "checks": {Q: 200, T: 7500}, "shards": {Q: 1, T: 4}},
+            {"name": "bounded", "run": "TestSenderBounded", "kind": "rapid", "checks": {Q: 40, T: 900}, "shards": {Q: 1, T: 4}},
             {"name": "window", "run": "TestNotifyWindow", "kind": "plain"},
         ],
     },
@@ -273,7 +273,7 @@ PROPS = {
                         "nodeManagementSubscriptionData / BindingData are outside the domain (not in the factory's list for NodeManagement)",
                         "for a readable-typed but not announced function a reply with the stored data or an error result are both accepted"],
         "runs": [
-            {"name": "responses", "run": "TestResponses", "kind": "rapid", "checks": {Q: 12000, T: 96000}, "shards": {Q: 4, T: 16}, "steps": {Q: 12, T: 20}},
+            {"name": "responses", "run": "TestResponses", "kind": "rapid", "checks": {Q: 12000, T: 480000}, "shards": {Q: 4, T: 16}, "steps": {Q: 12, T: 20}},
         ],
     },
     "C07": {
@@ -291,7 +291,7 @@ PROPS = {
         "assumptions": ["the heartbeat function is never added (C16); entity descriptions are not asserted (not announced by the stack)",
                         "re-adding an existing function uses its original flags"],
         "runs": [
-            {"name": "tree", "run": "TestLocalTree", "kind": "rapid", "checks": {Q: 3200, T: 30000}, "shards": {Q: 4, T: 16}, "steps": {Q: 30, T: 60}},
+            {"name": "tree", "run": "TestLocalTree", "kind": "rapid", "checks": {Q: 3200, T: 240000}, "shards": {Q: 4, T: 16}, "steps": {Q: 30, T: 60}},
             {"name": "interleavings", "run": "TestGetOrAddInterleavings", "kind": "plain"},
             {"name": "stress", "run": "TestGetOrAddStress", "kind": "plain", "env": {"VERIF_ROUNDS": {Q: 300, T: 2000}}},
             {"name": "regression", "run": "TestGetOrAddRegressionF23a", "kind": "plain"},
@@ -330,7 +330,7 @@ PROPS = {
         "assumptions": ["feature-set changes of existing entities, later replies omitting known entities and full notifications without entity [0] are not generated (DESIGN §4 C06 NA)",
                         "whether subscribe / bind calls are granted is not asserted here (C08/C09)"],
         "runs": [
-            {"name": "tree", "run": "TestRemoteTree", "kind": "rapid", "checks": {Q: 4000, T: 60000}, "shards": {Q: 4, T: 16}, "steps": {Q: 30, T: 50}, "shrinktime": "15s"},
+            {"name": "tree", "run": "TestRemoteTree", "kind": "rapid", "checks": {Q: 4000, T: 360000}, "shards": {Q: 4, T: 16}, "steps": {Q: 30, T: 50}, "shrinktime": "15s"},
         ],
     },
     "C16": {
@@ -347,7 +347,7 @@ PROPS = {
         "assumptions": ["timeouts are positive multiples of 100 ms (below that the announced duration rounds to 0 and time.NewTicker(0) aborts - outside the stated range)",
                         "timing tolerances from DESIGN A.6; a doubled period at 100 ms lies on the tolerance boundary"],
         "runs": [
-            {"name": "histories", "run": "TestHeartbeatHistories", "kind": "rapid", "checks": {Q: 48, T: 1504}, "shards": {Q: 6, T: 16}, "shrinktime": "30s"},
+            {"name": "histories", "run": "TestHeartbeatHistories", "kind": "rapid", "checks": {Q: 48, T: 3008}, "shards": {Q: 6, T: 16}, "shrinktime": "30s"},
             {"name": "interleavings", "run": "TestHeartbeatInterleavings", "kind": "plain", "shards": {Q: 8, T: 16}},
             {"name": "hammer", "run": "TestHeartbeatHammer", "kind": "plain", "shards": {Q: 1, T: 4}, "env": {"VERIF_ROUNDS": {Q: 200, T: 500}}},
             {"name": "regressions", "run": "TestScheduleRegressions", "kind": "plain"},
@@ -368,7 +368,7 @@ PROPS = {
         "assumptions": ["free-running schedules: a race found is real, absence in N workloads is not a proof; reports are not reproducible or shrinkable",
                         "open findings are keyed by state: a report is known iff both of its spine-go frames are functions listed for one state"],
         "runs": [
-            {"name": "workloads", "run": "TestWorkloads", "kind": "rapid", "race": True, "checks": {Q: 96, T: 1600}, "shards": {Q: 4, T: 16}, "env": {"VERIF_C17_OPS": {Q: 60, T: 150}}, "timeout": {Q: 900, T: 7200}},
+            {"name": "workloads", "run": "TestWorkloads", "kind": "rapid", "race": True, "checks": {Q: 96, T: 6400}, "shards": {Q: 4, T: 16}, "env": {"VERIF_C17_OPS": {Q: 60, T: 150}}, "timeout": {Q: 900, T: 7200}},
             {"name": "storms", "run": "TestStorms", "kind": "plain", "race": True, "shards": {Q: 2, T: 8}, "env": {"VERIF_ROUNDS": {Q: 4, T: 25}}, "timeout": {Q: 900, T: 7200}},
         ],
     },
